@@ -49,6 +49,7 @@ def check(model, rep, tier):
 
   # ---------------------------------------------------------------- TI-STATE
   tm = model.cls(TI, '_TypeMap')
+  rules_df.check_value_type(rep, 'TI-STATE', tm)
   orm = tm.methods.get('__or__')
   if orm is None:
     raise core.AnalysisError('_TypeMap.__or__ not found')
@@ -292,3 +293,11 @@ def check(model, rep, tier):
   rules_df.check_change_flag(rep, 'TI-FLAG', vn, 'out')
   rules_df.check_driver(model, rep, 'TI-DRIVER')
   _c05.asdl_rule(model, rep, 'TI-ASDL', [TI])
+
+  # ---------------------------------------------------------------- dependencies
+  rep.depends('C05', ['CFG-STMT', 'CFG-PAIR', 'CFG-TRY', 'CFG-SCOPE', 'CFG-KEYED', 'CFG-JUMP', 'CFG-LEAVES'],
+              'types are joined along the edges of this graph: a missing edge '
+              'loses the types assigned on that path')
+  rep.depends('C08', ['PARAMS', 'ACT-TRAV'],
+              'argument types are seeded from the parameters the activity '
+              'analysis records, strong updates from its modified sets')
